@@ -596,6 +596,46 @@ def fill_matrix_scenarios(rng, quick, formats, drv):
     return execs
 
 
+ALPHAS = [0xffff, 0xfffe, 0xff80, 0xff00, 0xfeff, 0x8000, 0x00ff, 0]      # around every threshold a shortcut could test
+DEEP = ["a2r10g10b10", "x2r10g10b10", "a2b10g10r10", "x2b10g10r10", "rgba_float", "rgb_float"]
+
+
+def alpha_matrix_scenarios(rng, quick, formats):
+    """fill_boxes / fill_rectangles: colour alpha around the opacity thresholds x operator x destination format
+       (including formats deeper than 8 bits per channel, where an "almost opaque" 16-bit alpha is not opaque),
+       each on fresh non-zero destination contents (random bytes; OVER first)."""
+    execs = []
+    k = 0
+    W, H = 6, 3
+    for fmt in formats:
+        st = min_stride(fmt, W)
+        if BPP[fmt] == 128:
+            st = (st + 15) // 16 * 16
+        for a in ALPHAS:
+            lines = ["R am_%s_%04x_%d" % (fmt, a, k)]
+            k += 1
+            lines.append("D %s %d %d %d %d %d %d" % (fmt, W, H, st, 16 + 4 * (k % 4) * (0 if BPP[fmt] == 128 else 1), 32,
+                                                    rng.randrange(1 << 30)))
+            lines.append("C -1" if k % 3 else "C 2 0 0 4 %d 3 1 %d %d" % (H, W, H))
+            lines.append("S")
+            boxes = [[0, 0, 3, H], [3, 0, W, 2], [1, 1, 5, H], [-1, -1, W + 1, H + 1], [0, 0, W, H], [2, 0, 4, H]]
+            ops = ["OVER", "OVER", "ADD", "ATOP", "SRC", "CLEAR"]
+            if not quick:
+                ops += ["OVER_REVERSE", "XOR", "DISJOINT_OVER", "SCREEN"]
+                boxes += [[0, 1, W, 2], [1, 0, 2, H], [0, 0, W, H], [3, 1, W, H]]
+            for i, op in enumerate(ops):
+                b = boxes[i]
+                # non-zero colour channels (a translucent colour is given premultiplied or not: both are legal inputs)
+                col = [rng.choice([0x00ff, 0x0100, 0x7fff, 0x8000, 0xff00, 0xffff, a]) for _ in range(3)] + [a]
+                if i % 2:
+                    lines.append("fillrects %s %s 1 %d %d %d %d" % (op, " ".join(map(str, col)), max(b[0], 0), max(b[1], 0),
+                                                                  b[2] - max(b[0], 0), b[3] - max(b[1], 0)))
+                else:
+                    lines.append("fillboxes %s %s 1 %s" % (op, " ".join(map(str, col)), " ".join(map(str, b))))
+            execs.append(lines)
+    return execs
+
+
 def draw_matrix_scenarios(rng, quick, formats):
     """composite32 / compute_composite_region / glyphs / trapezoids / rasterisers:
        destination clip kind x source clip kind (x mask clip kind) x {one, several} glyphs / shapes"""
@@ -818,6 +858,10 @@ def run(prop, args):
         chk.extra["directed_fill_matrix_executions"] = len(mx)
         nbase = len(execs)
         execs += mx
+        am = alpha_matrix_scenarios(rng, quick, DEEP + (["a8r8g8b8", "r5g6b5"] if quick else
+                                                        ["a8r8g8b8", "x8r8g8b8", "b8g8r8a8", "r5g6b5", "a8", "a1", "r8g8b8", "a4"]))
+        chk.extra["directed_alpha_matrix_executions"] = len(am)
+        execs += am
         chains = CHAINS
         # quick: everything under the full and the general-only chain; half of the sweeps under the two in between
         per_chain = lambda ci: execs if (not quick or ci in (0, 3)) else execs[ci:nbase:2]
